@@ -722,6 +722,9 @@ package sam
 //@     invariant freshslice(QBlock) && len(QBlock) == range_i && forall(a, 0, range_i, len(QBlock[a]) == max)
 //@     invariant len(queSeqArray) == len(alignedBlock.seqpairArray) && forall(a, 0, len(queSeqArray), len(queSeqArray[a]) <= max)
 //@   ensures [rows.equal] len(result.ref) == len(result.query)
+//@   # C11: both rows are built by this call - in particular the reference row never IS the caller's reference buffer, which
+//@   # `sam variants` goes on to encode in place
+//@   ensures [rows.fresh] freshslice(result.ref) && freshslice(result.query) && disjoint(result.ref, result.query)
 //@   after call:Sort#1: assert [hint.perm] forall(a, 0, len(insertions), 0 <= sortperm(a) && sortperm(a) < len(insertions) && insertions[a].start >= 0 && insertions[a].length >= 0)
 //@   after append#4: assert [c02.insert.ref] len(newRef) == len(refSeqArray[j]) + insertion.length && forall(k, 0, at, newRef[k] == refSeqArray[j][k]) && forall(k, 0, insertion.length, newRef[at + k] == '-') && forall(k, at, len(refSeqArray[j]), newRef[insertion.length + k] == refSeqArray[j][k])
 //@   after append#7: assert [c02.insert.query] len(newQue) == len(queSeqArray[j]) + insertion.length && forall(k, 0, at, newQue[k] == queSeqArray[j][k]) && forall(k, 0, insertion.length, newQue[at + k] == '-') && forall(k, at, len(queSeqArray[j]), newQue[insertion.length + k] == queSeqArray[j][k])
